@@ -572,3 +572,35 @@ func (rawP2Profile) GetClaims() psatoken.IClaims {
 		CanonicalProfile: RawP2Name,
 	}}
 }
+
+// ---- an IClaims implementation that is used BY VALUE (a decorator around a
+// *P2Claims: the pointer methods of the embedded pointer are in the value's
+// method set) ----
+
+type ByValueClaims struct{ *psatoken.P2Claims }
+
+// ---- a derived profile that EXCLUDES a claim which is mandatory in the base
+// profile: the instance ID (getter and setter report "not in profile") ----
+
+const NoInstIDName = "http://example.com/verif/no-instance-id-on-p2"
+
+type NoInstIDClaims struct{ psatoken.P2Claims }
+
+func (o *NoInstIDClaims) GetInstID() ([]byte, error) { return nil, psatoken.ErrClaimNotInProfile }
+func (o *NoInstIDClaims) SetInstID([]byte) error     { return psatoken.ErrClaimNotInProfile }
+func (o *NoInstIDClaims) Validate() error            { return psatoken.ValidateClaims(o) }
+
+type noInstIDProfile struct{}
+
+func (noInstIDProfile) GetName() string { return NoInstIDName }
+func (noInstIDProfile) GetClaims() psatoken.IClaims {
+	p := eat.Profile{}
+	if err := p.Set(NoInstIDName); err != nil {
+		panic(err)
+	}
+	return &NoInstIDClaims{psatoken.P2Claims{
+		Profile:          &p,
+		SwComponents:     &psatoken.SwComponents[*psatoken.SwComponent]{},
+		CanonicalProfile: NoInstIDName,
+	}}
+}
